@@ -94,7 +94,9 @@ func init() {
 		runner.Part{Scenario: "simhost", Params: p("pmember", "10", "ptransfer", "8", "ppartition", "8"), Share: 1},
 		// few full members plus witnesses / non-voting members, crashes in the middle of saves
 		runner.Part{Scenario: "simhost", Params: p("hosts", "3", "voters", "1", "memberbias", "2", "pmember", "40", "pcrash", "15", "prestart", "80", "fsyield", "400", "readmix", "20"), Share: 1},
-		runner.Part{Scenario: "simhost", Params: p("hosts", "4", "voters", "2", "memberbias", "1", "pmember", "25", "pcrash", "8", "ppartition", "8", "quiesce", "1"), Share: 1})
+		runner.Part{Scenario: "simhost", Params: p("hosts", "4", "voters", "2", "memberbias", "1", "pmember", "25", "pcrash", "8", "ppartition", "8", "quiesce", "1"), Share: 1},
+		// several replicas of an on-disk state machine shard lag at once and need streamed snapshots
+		runner.Part{Scenario: "simhost", Params: p("sm", "3", "hosts", "5", "snapshot", "5", "overhead", "0", "ppartition", "12", "groupsplit", "60", "pheal", "8", "pcrash", "4", "ops", "40"), Share: 1})
 	sh("C18", 90, 1200, runner.Part{Scenario: "simhost", Params: p("pmember", "20", "hosts", "5"), Share: 1},
 		runner.Part{Scenario: "simhost", Params: p("pmember", "20", "hosts", "4", "pcrash", "5"), Share: 1},
 		// quorum sets: reads and elections while non-voting members / witnesses answer and voters are cut off
